@@ -42,6 +42,13 @@ type ClientConn struct {
 	mu sync.RWMutex
 
 	writeMu sync.Mutex // serializes writes of whole transactions to Connection
+
+	// Transactions that go through the server's outbox reach the connection in the order they were queued: the
+	// dispatcher hands out sendQueued as a ticket, and a sender waits (on sendCond, whose lock is writeMu) until
+	// sendDone has reached its ticket.
+	sendQueued uint64
+	sendDone   uint64
+	sendCond   *sync.Cond
 }
 
 func (cc *ClientConn) FileRoot() string {
